@@ -100,7 +100,7 @@ PROPS.update({
         technique="Lean 4 theorems over an ordered field with an exponential weight + bit-level correspondence of the Float transcription",
         level_text="The steady-rate fixed point of the double-exponential estimator is proved over any ordered field; the Float transcription reproduces the crate's outputs.",
         level_note=COMMON_NOTE + "libm pow is outside the model (relative tolerance 1e-9).",
-        claimed=False),
+        ),
     "C10": dict(
         streams=[dict(cmd="C10")],
         technique="Lean 4 proof of totality of the transcribed parser state machine (induction over the input string) + exhaustive/generated differential classification",
